@@ -66,6 +66,13 @@ def generator_condition(fq):
 
 def run(ctx):
     P = ctx.P
+    # "each stored private key decrypts what is encrypted to the public key at that node of the CURRENT tree": the private key list of
+    # the next epoch may be installed only when nothing can fail any more, or a rejected / failed commit leaves next-epoch keys behind
+    from ..core.fa_rule import fail_atomic_paths
+    ctx.check('FAIL-ATOMIC', 'the private key list changes only together with the epoch',
+              fail_atomic_paths(P, ['Group::process_incoming_message', 'Group::process_incoming_message_with_time', 'Group::apply_pending_commit'],
+                                r'^private_tree(\.|$)', 'a commit that is rejected or fails late leaves private keys of the next epoch in the current one'),
+              floor=1)
     ctx.check('EXHAUSTIVE-LOOP', 'committer visits every node of its direct path', lambda P_: exhaustive_loop(P_, 'TreeKem::encap'), floor=1)
     ctx.check('EXHAUSTIVE-LOOP', 'receiver visits every node of the update path above the common ancestor', lambda P_: exhaustive_loop(P_, 'TreeKem::decap'), floor=1)
     ctx.check('EXHAUSTIVE-LOOP', 'joiner visits every node of its direct path above the common ancestor', lambda P_: exhaustive_loop(P_, 'TreeKemPrivate::update_secrets'), floor=1)
